@@ -10,6 +10,7 @@ mod treeops;
 mod graphops;
 mod protoops;
 mod lockops;
+mod dumpops;
 
 pub struct Ctx {
     pub hash: hashops::HashCtx,
@@ -73,6 +74,12 @@ fn main() {
             run_stream(stdin.lock(), std::io::BufWriter::new(stdout.lock()));
         }
         // purity: the same ops file from N threads at once; every transcript must equal the first
+        // the second translator: facts of the current source as the compiler sees them (tools/extract.py --probe)
+        Some("dump") => {
+            for (k, v) in dumpops::dump() {
+                println!("{}\t{}", k, v);
+            }
+        }
         Some("threads") => {
             let n: usize = args[2].parse().unwrap();
             let data = std::fs::read(&args[3]).unwrap();
